@@ -57,7 +57,11 @@ class Lower:
             r = ['and', ['>=', x, lo], ['<=', x, hi]]
             return r if k == 'between' else ['not', r]
         if k == 'case':
-            return ['if', self.expr(e[1]), self.expr(e[2]), 'null' if e[3] is None else self.expr(e[3])]
+            # the first WHEN whose condition is true decides; no ELSE means NULL
+            r = 'null' if e[2] is None else self.expr(e[2])
+            for c, v in reversed(e[1]):
+                r = ['if', self.expr(c), self.expr(v), r]
+            return r
         if k == 'agg':
             f, a = e[1], e[2]
             if f == 'count*':
@@ -128,7 +132,11 @@ class Lower:
                 self._collect_aggs(x, out)
             elif isinstance(x, list):
                 for y in x:
-                    self._collect_aggs(y, out)
+                    if isinstance(y, tuple) and y and isinstance(y[0], tuple):
+                        for z in y:
+                            self._collect_aggs(z, out)
+                    else:
+                        self._collect_aggs(y, out)
 
 
 def compare(task, ref, other, which, K):
@@ -275,6 +283,22 @@ def family():
             for order in (None, [(sel[0], True)]):
                 q = {'from': [('table', t, t)], 'where': None, 'select': list(sel), 'group': None, 'having': None, 'distinct': True, 'order': order, 'limit': None, 'offset': None}
                 out.append({'sql': corpus.q_sql(q), 'ast': q})
+    # CASE with several, overlapping WHEN branches (first match wins), with and without ELSE; BETWEEN both ways
+    x, y = col('u', 'x'), col('u', 'y')
+    L = lambda v: ('lit', v, 'I')
+    cases = [('case', [(('>', x, L(0)), L(1)), (('>', x, L(1)), L(2))], L(0)),
+             ('case', [(('>', x, L(1)), L(2)), (('>', x, L(0)), L(1))], None),
+             ('case', [(('isnull', x), L(-1)), (('=', x, y), L(5)), (('>=', x, L(0)), y)], x),
+             ('case', [(('=', x, L(1)), y)], L(3))]
+    preds = [('between', x, L(0), L(1)), ('notbetween', x, L(0), y), ('between', y, x, L(2)), ('between', x, L(2), L(0))]
+    for c in cases:
+        q = {'from': [('table', 'u', 'u')], 'where': None, 'select': [x, c], 'group': None, 'having': None, 'distinct': False, 'order': None, 'limit': None, 'offset': None}
+        out.append({'sql': corpus.q_sql(q), 'ast': q})
+        q2 = dict(q, select=[c, ('agg', 'count*', None)], group=[c])
+        out.append({'sql': corpus.q_sql(q2), 'ast': q2})
+    for p in preds:
+        q = {'from': [('table', 'u', 'u')], 'where': p, 'select': [x, y], 'group': None, 'having': None, 'distinct': False, 'order': None, 'limit': None, 'offset': None}
+        out.append({'sql': corpus.q_sql(q), 'ast': q})
     seen, uniq = set(), []
     for g in out:
         if g['sql'] not in seen:
